@@ -269,6 +269,23 @@ def verdict(rule, doc):
     return (rt.is_valid, rt.tested, tuple(canon(tuple(f.path)) for f in rt.failures))
 
 
+def shifted(x):
+    """same shape and keys, other leaf values"""
+    if type(x) is dict:
+        return {k: shifted(v) for k, v in x.items()}
+    if type(x) is list:
+        return [shifted(v) for v in x]
+    if type(x) is bool:
+        return not x
+    if type(x) is int:
+        return x + 1
+    if type(x) is float:
+        return x + 0.5
+    if type(x) is str:
+        return x + "~"
+    return 0 if x is None else x
+
+
 def build_rule(rterm, via):
     import valida
     if via == "dsl":
@@ -324,6 +341,18 @@ def run(case, ctx):
         if okf and v_shared != v_fresh:
             ctx.violate(f"C17/history/{ktail}", f"after judging a document, the same rule judges an ==-equal but differently typed "
                         f"document as {v_shared}; a fresh rule says {v_fresh}\n rule={rterm}\n first doc={doc!r}\n second doc={twin!r}")
+    # history: the same rule object then judges a document of the same shape with other values at the referenced nodes
+    other = shifted(doc)
+    v_shared = verdict(r_path, other)
+    okf, fresh = call(build_rule, rterm, via)
+    v_fresh = verdict(fresh, other) if okf else None
+    ctx.count("history:same-shape-other-values")
+    if okf and v_shared != v_fresh:
+        ctx.violate(f"C17/history/{ktail}", f"after judging a document, the same rule judges a second document (same shape, other values) "
+                    f"as {v_shared}; a fresh rule says {v_fresh}\n rule={rterm}\n first doc={doc!r}\n second doc={other!r}")
+    v_back = verdict(r_path, doc)
+    if v_back != v1:
+        ctx.violate(f"C17/history/{ktail}", f"after judging another document the rule judges the first one as {v_back}, before {v1}\n rule={rterm}")
     mp = m0["per_rule"][0]
     mv = (mp["valid"], mp["tested"], tuple(canon(tuple(p)) for p, _ in mp["failures"]))
     if v1[0] != "raise" and v1 != mv:
